@@ -85,7 +85,7 @@ pub fn enumerated(max_len: usize, batch: usize) -> Vec<KuBatch> {
             }
         }
     }
-    specs.chunks(batch).map(|c| KuBatch { host: Host::Sh, specs: c.to_vec() }).collect()
+    specs.chunks(batch).enumerate().map(|(k, c)| KuBatch { host: if k % 3 == 2 { Host::ShCrlf } else { Host::Sh }, specs: c.to_vec() }).collect()
 }
 
 fn long_spec() -> BoxedStrategy<KuSpec> {
@@ -114,7 +114,7 @@ fn long_spec() -> BoxedStrategy<KuSpec> {
 }
 
 pub fn random_batch() -> BoxedStrategy<KuBatch> {
-    (prop_oneof![Just(Host::Sh), Just(Host::Rb)], proptest::collection::vec(long_spec(), 1..6)).prop_map(|(host, specs)| KuBatch { host, specs }).boxed()
+    (prop_oneof![Just(Host::Sh), Just(Host::Rb), Just(Host::ShCrlf)], proptest::collection::vec(long_spec(), 1..6)).prop_map(|(host, specs)| KuBatch { host, specs }).boxed()
 }
 
 pub fn run(run: &mut Run) {
